@@ -16,3 +16,10 @@ Definition bind {T U} (r : res T) (f : T -> res U) : res U :=
 Notation "'do' x <- r ; k" := (bind r (fun x => k)) (at level 200, x pattern, r at level 100, k at level 200).
 
 Definition is_ok {T} (r : res T) : bool := match r with Ok _ => true | _ => false end.
+
+(** [for _ in range(n): body] over a state that may raise: n-fold iteration, stopping at the first exception *)
+Fixpoint iter_res {S : Type} (n : nat) (f : S -> res S) (s : S) : res S :=
+  match n with
+  | O => Ok s
+  | S k => match f s with Ok s' => iter_res k f s' | Raise e => Raise e end
+  end.
